@@ -88,6 +88,9 @@ def run_check(pid, prop, tier, seed):
             sweep_fail.append({"case": line, "impl": r.raw[:600], "expected": exp if not callable(exp) else "predicate", "label": label})
     for f in getattr(S, "extra_failures", []):
         sweep_fail.append(f)
+    if getattr(prop, "DISAGREEMENT_IS_VIOLATION", False):
+        for d in disagreements:
+            sweep_fail.append({"label": "differs-from-reference|" + d["label"], "case": d["case"], "impl": d["impl"], "expected": "reference (extracted Coq model): " + str(d["model"])})
     sweep_fail += hfails
     cov["evaluations"] = len(S.cases)
     cov["distinct_nontrivial"] = len(nontrivial)
